@@ -142,6 +142,18 @@ class Eval:
     def expr(self, ref, **kw):
         return self.flow.expr(ref)
 
+    def path_expr(self, ref):
+        """expression of `ref` with phis replaced by the value that reached them on this path"""
+        for _ in range(8):
+            i = self.fn.inst(ref)
+            if i is None or i.op != "phi":
+                break
+            al = self.facts.get(("A", ref))
+            if al is None:
+                break
+            ref = al
+        return self.flow.expr(ref)
+
     def val(self, ref, depth=10):
         if ref.startswith("#"):
             try:
